@@ -3,5 +3,5 @@ From Common Require Import Conv Outcome.
 From Gen Require C01.
 From C01 Require Import Str Model Spec Model2.
 Extraction "c01_model.ml" conv_anchor M_cycle M_read_merge M_write_derive M_codec choose_name
-  print_dec normalize in_range canonical M_written_tags M_name_table_ascii
+  print_dec normalize in_range canonical M_written_tags M_name_table_ascii M_os2_derived_of
   Gen.C01.c01_name_appleBCP Gen.C01.c01_name_msBCP.
